@@ -336,6 +336,31 @@ Section Sem.
     | [] => main_loop fuel g
     end.
 
+  (* diagnosis only: the state the machine is in when it reads each byte *)
+  Fixpoint trace_states (fuel : nat) (g : cfg) (acc : list (N * state)) : list (N * state) :=
+    match fuel with
+    | O => rev acc
+    | S f =>
+      if pos g <=? size then
+        let c := if pos g =? size then Some 0 else hd_error (rest g) in
+        match c with
+        | None => rev acc
+        | Some c =>
+          if (c =? 0) && negb (pos g =? size) then rev acc
+          else
+            match dispatch redo_fuel c g with
+            | Ok g1 =>
+              let g2 := advance g1 1 in
+              match drain (List.length (finds g2)) g2 with
+              | Ok r => trace_states f (fst r) ((pos g, reg g) :: acc)
+              | _ => rev ((pos g, reg g) :: acc)
+              end
+            | _ => rev ((pos g, reg g) :: acc)
+            end
+        end
+      else rev acc
+    end.
+
   Inductive scan_end : Set :=
   | SEof
   | SErr (pos : N) (e : errinfo)
@@ -360,6 +385,9 @@ End Sem.
 
 (* generous: the metatheory needs 7 * (6 * (len + 1) + 60) + 1 *)
 Definition scan_fuel (data : bytes) : nat := 42 * List.length data + 512.
+
+Definition scan_trace (jsc_len enum_len : bytes -> len_result) (data : bytes) : list (N * state) :=
+  trace_states jsc_len enum_len data (N.of_nat (List.length data)) (scan_fuel data) (init_cfg data) [].
 
 Definition scan (jsc_len enum_len : bytes -> len_result) (data : bytes) : list lexeme * scan_end * cfg :=
   scan_all jsc_len enum_len data (N.of_nat (List.length data)) (scan_fuel data) (init_cfg data) [].
